@@ -51,6 +51,12 @@ add("C13", "model_checking",
     "Trusted: the recomputation in mc/worlds/aave.py (ref_positions / ref_risk) and mc/checks/c13.py; snapshot/restore so that the oracle does not perturb cache state.",
     "DESIGN.md §5 C13")
 
+add("C11", "model_checking",
+    "exhaustive product portfolio x price vector x probe, probes placed relative to the analytic accept/reject frontier (exact Fractions), chained to depth 2 on the real AaveV3Market",
+    "Portfolios (8 supply sets x 6 debt sets, built by real supply/borrow calls) x 5 price vectors; every probe (borrow / withdraw at frontier x {0.999, 1-1e-6, 1+1e-6, 1.001, 1.5}, borrow(None), withdraw(get_max_withdraw_amount), collateral flag on/off, repay with cash / collateral, supply) is executed, then every probe again after every accepted probe. Judged: accept inside / reject beyond the limit with 0.1% margin, HF >= 1 and debt <= collateral x LTV after every accepted operation, helper maxima accepted and <= supply, reported HF / max-LTV / LT / LTV equal their definitions, rejected probes change nothing.",
+    "Trusted: the frontier formulas in mc/checks/c11.py and ref_risk in mc/worlds/aave.py. Frontiers worth < 1e-9 USD are treated as 'no room'. Helpers are judged for accounts with collateral only, as the property says.",
+    "DESIGN.md §5 C11")
+
 _PENDING = "check not built yet in this round (planned: bounded exhaustive exploration, see DESIGN.md §5); listed here until its check is registered"
 for _i in range(1, 21):
     _p = f"C{_i:02d}"
